@@ -509,3 +509,127 @@ pub fn case_strategy(b: &Bias) -> BoxedStrategy<Case> {
         .prop_map(|(cfg, keys, t0_offset, ops)| Case { cfg, keys, t0_offset, ops })
         .boxed()
 }
+
+/// KeyRef that resolves exactly to key `j` of a universe of `n` keys.
+pub fn key_at(j: usize, n: usize) -> KeyRef {
+    KeyRef::Idx(((j * 65536).div_ceil(n)).min(65535) as u16)
+}
+
+/// C05: fill a small device past its capacity, free part of it, refill, empty it, refill again.
+pub fn fill_cycle_strategy(versions: Vec<u32>) -> BoxedStrategy<Case> {
+    let nver = versions.len();
+    let sized = |lo: u8, hi: u8| {
+        prop_oneof![
+            2 => (1u16..3000).prop_map(LenClass::Small),
+            3 => (lo..hi, -1i8..=1).prop_map(|(n, d)| LenClass::Edge(n, d)),
+            4 => (lo.max(2)..hi.max(3), any::<u16>()).prop_map(|(n, o)| LenClass::Multi(n, o)),
+        ]
+        .prop_map(|len| ValSpec { len, kind: ValKind::Stamp })
+    };
+    (
+        (0..nver, 24u16..80, prop_oneof![Just(2u8), Just(2u8), Just(4u8), Just(8u8)], proptest::bool::weighted(0.75), any::<bool>()),
+        12usize..40,
+        0u64..1_000_000_000_000u64,
+    )
+        .prop_flat_map(move |((vi, blocks, visible_cpus, plain_io, legacy_plain_meta), nkeys, t0_offset)| {
+            let version = versions[vi];
+            let cfg = Config {
+                persistent: true,
+                version,
+                cache: false,
+                ttl: false,
+                dev: DevSize::Tiny(blocks),
+                max_memory: None,
+                plain_io,
+                legacy_plain_meta: version < 3 && legacy_plain_meta,
+                visible_cpus,
+            };
+            let keys: Vec<Vec<u8>> = (0..nkeys).map(|i| format!("fill-{i:03}").into_bytes()).collect();
+            let n = nkeys;
+            let ins = move |lo: u8, hi: u8| (0..n, sized(lo, hi)).prop_map(move |(j, v)| Op::Insert { k: key_at(j, n), v, ts: TsSpec::Auto, bytes: false });
+            let del = (0..n).prop_map(move |j| Op::Delete { k: key_at(j, n), ts: TsSpec::Auto });
+            (
+                Just(cfg),
+                Just(keys),
+                Just(t0_offset),
+                proptest::collection::vec(ins(1, 4), 4..24),
+                proptest::collection::vec(ins(2, 7), 3..16),
+                proptest::collection::vec(del.clone(), 2..20),
+                any::<bool>(),
+                proptest::collection::vec(ins(1, 5), 3..14),
+                proptest::collection::vec(prop_oneof![3 => ins(1, 6).boxed(), 2 => del.boxed(), 1 => Just(Op::Flush).boxed(), 1 => Just(Op::Sleep).boxed()], 0..30),
+            )
+        })
+        .prop_map(|(cfg, keys, t0_offset, first, overfill, deletes, reopen, overwrite, tail)| {
+            let n = keys.len();
+            let mut ops = Vec::new();
+            ops.extend(first.clone());
+            ops.push(Op::Flush);
+            ops.extend(overfill);
+            ops.push(Op::Flush);
+            ops.extend(deletes);
+            ops.push(Op::Flush);
+            if reopen {
+                ops.push(Op::Reopen { cache: None, ttl: None });
+            }
+            ops.extend(overwrite);
+            ops.push(Op::Flush);
+            ops.extend(tail);
+            ops.push(Op::Flush);
+            // empty the device completely, then everything a fresh device accepted must fit again
+            for j in 0..n {
+                ops.push(Op::Delete { k: key_at(j, n), ts: TsSpec::Auto });
+            }
+            ops.push(Op::Flush);
+            ops.extend(first);
+            ops.push(Op::Flush);
+            Case { cfg, keys, t0_offset, ops }
+        })
+        .boxed()
+}
+
+/// Crash engine: batches of 60-120 records in ONE shard (single worker), so a batch's journal
+/// intent spans several 512-byte sectors and can be torn.
+pub fn wide_batch_strategy(versions: Vec<u32>) -> BoxedStrategy<Case> {
+    let nver = versions.len();
+    ((0..nver, any::<bool>(), any::<bool>(), any::<bool>()), 64usize..125, 0u64..1_000_000_000_000u64)
+        .prop_flat_map(move |((vi, plain_io, legacy_plain_meta, ttl), nkeys, t0_offset)| {
+            let version = versions[vi];
+            let cfg = Config {
+                persistent: true,
+                version,
+                cache: false,
+                ttl,
+                dev: DevSize::Normal,
+                max_memory: None,
+                plain_io,
+                legacy_plain_meta: version < 3 && legacy_plain_meta,
+                visible_cpus: 2,
+            };
+            let keys: Vec<Vec<u8>> = (0..nkeys).map(|i| format!("w{i:03}").into_bytes()).collect();
+            let n = nkeys;
+            let small = (1u16..300).prop_map(|l| ValSpec { len: LenClass::Small(l), kind: ValKind::Stamp });
+            let batch = move |lo: usize| proptest::collection::vec((0..n, small.clone()), lo..n + 20).prop_map(move |v| v.into_iter().map(|(j, v)| Op::Insert { k: key_at(j, n), v, ts: TsSpec::Auto, bytes: false }).collect::<Vec<_>>());
+            let dels = proptest::collection::vec(0..n, 0..30).prop_map(move |v| v.into_iter().map(|j| Op::Delete { k: key_at(j, n), ts: TsSpec::Auto }).collect::<Vec<_>>());
+            (Just(cfg), Just(keys), Just(t0_offset), proptest::collection::vec((batch(n - 4), dels, any::<bool>()), 2..5))
+        })
+        .prop_map(|(cfg, keys, t0_offset, rounds)| {
+            let n = keys.len();
+            let mut ops = Vec::new();
+            // first round touches every key once so the batch has one record per key
+            for j in 0..n {
+                ops.push(Op::Insert { k: key_at(j, n), v: ValSpec { len: LenClass::Small(40 + (j % 200) as u16), kind: ValKind::Stamp }, ts: TsSpec::Auto, bytes: false });
+            }
+            ops.push(Op::Flush);
+            for (batch, dels, flush_between) in rounds {
+                ops.extend(batch);
+                if flush_between {
+                    ops.push(Op::Flush);
+                }
+                ops.extend(dels);
+                ops.push(Op::Flush);
+            }
+            Case { cfg, keys, t0_offset, ops }
+        })
+        .boxed()
+}
